@@ -28,6 +28,14 @@ void* operator new(std::size_t sz, std::align_val_t al) {
 void operator delete(void* p, std::size_t, std::align_val_t) noexcept { free(p); }
 void operator delete(void* p, std::align_val_t) noexcept { free(p); }
 
+// ---- announcement counter (YAKUSHIMA_VERIF hooks): stores to a permutation word per mutator call
+static int g_perm_stores = 0;
+#ifdef YAKUSHIMA_VERIF
+static void count_hook(int kind, const void*, int field, std::uint64_t) {
+    if (kind == yakushima::verif::k_store && field == yakushima::verif::f_perm) ++g_perm_stores;
+}
+#endif
+
 static std::uint64_t rng_state = 88172645463325252ULL;
 static std::uint64_t rnd() {
     rng_state ^= rng_state << 13;
@@ -120,17 +128,22 @@ static void perm_case(std::uint64_t w, std::size_t n) {
         std::printf("perm.idx %016" PRIx64 " %zu = %zu\n", w, r, p.get_index_of_rank(r));
     for (std::size_t r = 0; r < n; ++r) {
         permutation q{w};
+        g_perm_stores = 0;
         q.delete_rank(r);
         std::printf("perm.del %016" PRIx64 " %zu = %016" PRIx64 "\n", w, r, q.get_body());
+        // each update is published as one store of one word
+        std::printf("perm.stores del %016" PRIx64 " %zu = %d\n", w, r, g_perm_stores);
     }
     if (n < 15) {
         for (std::size_t r = 0; r <= n; ++r) {
             // every position the caller could pass: the reported empty slot and all others
             for (std::size_t pos = 0; pos < 15; ++pos) {
                 permutation q{w};
+                g_perm_stores = 0;
                 q.insert_rank(r, pos);
                 std::printf("perm.ins %016" PRIx64 " %zu %zu = %016" PRIx64 "\n", w, r, pos,
                             q.get_body());
+                if (pos == 0) std::printf("perm.stores ins %016" PRIx64 " %zu = %d\n", w, r, g_perm_stores);
             }
         }
     }
@@ -144,8 +157,10 @@ static void perm_case(std::uint64_t w, std::size_t n) {
 static void perm_grid(std::size_t per_n) {
     for (std::size_t num = 0; num <= 15; ++num) {
         permutation q{};
+        g_perm_stores = 0;
         q.split_dest(num);
         std::printf("perm.split %zu = %016" PRIx64 "\n", num, q.get_body());
+        std::printf("perm.stores split 0 %zu = %d\n", num, g_perm_stores);
     }
     for (std::size_t n = 0; n <= 15; ++n) {
         std::vector<unsigned> id(n);
@@ -350,7 +365,9 @@ static void node_sites(std::size_t nlists) {
                 bn->set_key_length_at(i, static_cast<key_length_type>(sh[i].len));
             }
             bn->get_permutation().set_body(sh.size());
+            g_perm_stores = 0;
             bn->permutation_rearrange();
+            std::printf("perm.stores rearr 0 %zu = %d\n", sh.size(), g_perm_stores);
             std::printf("perm.rearr |%s = %016" PRIx64 "\n", ents_str(sh).c_str(), bn->get_permutation().get_body());
         }
         delete bn;
@@ -482,6 +499,9 @@ int main(int argc, char** argv) {
         if (rng_state == 0) rng_state = 1;
     }
     FLAGS_logtostderr = true;
+#ifdef YAKUSHIMA_VERIF
+    yakushima::verif::hook_slot() = &count_hook;
+#endif
     std::printf("sizeof border %zu interior %zu lv %zu\n", sizeof(border_node), sizeof(interior_node), sizeof(link_or_value));
     if (what == "ver" || what == "all") ver_grid(2000 * scale);
     if (what == "perm" || what == "all") perm_grid(20 * scale);
